@@ -124,3 +124,23 @@ Definition S_TOFFOLI : mat expr := ctrl_block 6 S_X.
 Definition S_CCZ : mat expr := ctrl_block 6 S_Z.
 Definition S_DEUTSCH (t : aff) : mat expr :=
   ctrl_block 6 [[EMul ei (ECos t); ESin t]; [ESin t; EMul ei (ECos t)]].
+
+(* ---- GeneralizedRBS on m "in" and m' "out" qubits ----
+   The reconfigurable beam splitter RBS (documented 4x4 matrix above) generalised to the two basis
+   states |1..1>_in |0..0>_out (index i_in) and |0..0>_in |1..1>_out (index i_out): identity elsewhere,
+   and on (i_in, i_out) the rotation  [[e^{i phi} cos, -e^{i phi} sin], [e^{-i phi} sin, e^{-i phi} cos]].
+   For m = m' = 1, phi = 0 this is exactly the documented RBS(theta).  (The class docstring prints
+   the block with the rows in the other order and phi -> -phi; the decomposition of the gate, C08,
+   agrees with the matrix below.) *)
+Definition grbs_entry (iin iout r c : nat) (t p : aff) : expr :=
+  if Nat.eqb r c then
+    (if Nat.eqb r iin then EMul (cis_ p) (ECos t)
+     else if Nat.eqb r iout then EMul (cisn p) (ECos t) else e1)
+  else if Nat.eqb r iin && Nat.eqb c iout then ENeg (EMul (cis_ p) (ESin t))
+  else if Nat.eqb r iout && Nat.eqb c iin then EMul (cisn p) (ESin t)
+  else e0.
+Definition S_GeneralizedRBS (m m' : nat) (t p : aff) : mat expr :=
+  let d := Nat.pow 2 (m + m') in
+  let iin := ((Nat.pow 2 m - 1) * Nat.pow 2 m')%nat in
+  let iout := (Nat.pow 2 m' - 1)%nat in
+  map (fun r => map (fun c => grbs_entry iin iout r c t p) (seq 0 d)) (seq 0 d).
